@@ -1,122 +1,464 @@
 import Mltwist.Model.Exprtools
 import Mltwist.Spec.Gadgets
+import Mltwist.Lemmas.EvalBasic
 /-
-Helper lemmas for C11: each gadget evaluates to its documented function.  (Proofs to be supplied.)
+Helper lemmas for C11: each gadget evaluates to its documented function.
 -/
 namespace Mltwist.Lemmas.Gadgets
-open Mltwist
-
-theorem eval_negate (ρ : Env) (e : Expr) (w : Nat) :
-    (Tools.negate e w).eval ρ = Spec.neg w (e.eval ρ) := by
-  sorry
-
-theorem eval_sub (ρ : Env) (a b : Expr) (w : Nat) :
-    (Tools.sub a b w).eval ρ = Spec.sub w (trunc w (a.eval ρ)) (trunc w (b.eval ρ)) := by
-  sorry
-
-theorem eval_abs (ρ : Env) (e : Expr) (w : Nat) (hw : 1 ≤ w) (hw' : w ≤ 255) :
-    (Tools.abs e w).eval ρ = Spec.abs w (e.eval ρ) := by
-  sorry
+open Mltwist Mltwist.Lemmas.EvalBasic
 
 theorem eval_ones (ρ : Env) (w : Nat) :
     (Tools.ones w).eval ρ = Spec.ones w := by
-  sorry
-
-theorem eval_mod (ρ : Env) (a b : Expr) (w : Nat) :
-    (Tools.mod a b w).eval ρ = Spec.umod w (a.eval ρ) (b.eval ρ) := by
-  sorry
-
-theorem eval_signedMul (ρ : Env) (a b : Expr) (w : Nat) (hw : w ≤ 127)
-    (ha : 1 ≤ a.width ∧ a.width ≤ 2 * w) (hb : 1 ≤ b.width ∧ b.width ≤ 2 * w) :
-    (Tools.signedMul a b w).eval ρ = Spec.smul w a.width b.width (a.eval ρ) (b.eval ρ) := by
-  sorry
-
-theorem eval_signedDiv (ρ : Env) (a b : Expr) (w : Nat) (hw : 1 ≤ w) (hw' : w ≤ 255)
-    (ha : a.width = w) (hb : b.width = w) :
-    (Tools.signedDiv a b w).eval ρ = Spec.sdiv w (a.eval ρ) (b.eval ρ) := by
-  sorry
-
-theorem eval_signedMod (ρ : Env) (a b : Expr) (w : Nat) (hw : 1 ≤ w) (hw' : w ≤ 255)
-    (ha : a.width = w) (hb : b.width = w) :
-    (Tools.signedMod a b w).eval ρ = Spec.smod w (a.eval ρ) (b.eval ρ) := by
-  sorry
-
-theorem eval_signExtend (ρ : Env) (e sb : Expr) (w : Nat)
-    (hbit : trunc w (sb.eval ρ) < 8 * w) :
-    (Tools.signExtend e sb w).eval ρ = Spec.sext w (trunc w (e.eval ρ)) (trunc w (sb.eval ρ)) := by
-  sorry
-
-theorem eval_rshA (ρ : Env) (e s : Expr) (w : Nat) (hw : 1 ≤ w) (hw' : w ≤ 255) :
-    (Tools.rshA e s w).eval ρ = Spec.rsha w (e.eval ρ) (trunc w (s.eval ρ)) := by
-  sorry
+  simp [Tools.ones, evalBin, nandW_zero_zero, Spec.ones, Spec.M]
 
 theorem eval_bitNot (ρ : Env) (e : Expr) (w : Nat) :
     (Tools.bitNot e w).eval ρ = Spec.bnot w (e.eval ρ) := by
-  sorry
+  have h : trunc w (2 ^ (8 * w) - 1) = 2 ^ (8 * w) - 1 :=
+    trunc_of_lt (by have := M_pos w; omega)
+  simp only [Tools.bitNot, eval_binary, evalBin, eval_ones, Spec.ones, Spec.M, h, Spec.bnot]
+  exact nandW_ones (trunc_lt _ _)
 
 theorem eval_bitAnd (ρ : Env) (a b : Expr) (w : Nat) :
     (Tools.bitAnd a b w).eval ρ = Spec.band w (a.eval ρ) (b.eval ρ) := by
-  sorry
+  simp only [Tools.bitAnd, eval_bitNot, Spec.bnot, eval_binary, evalBin, Spec.M, Spec.band]
+  rw [trunc_of_lt (nandW_lt _ _ _), cpl_nandW _ (trunc_lt _ _)]
 
 theorem eval_bitOr (ρ : Env) (a b : Expr) (w : Nat) :
     (Tools.bitOr a b w).eval ρ = Spec.bor w (a.eval ρ) (b.eval ρ) := by
-  sorry
+  have hM := M_pos w
+  simp only [Tools.bitOr, eval_bitNot, Spec.bnot, eval_binary, evalBin, Spec.M, Spec.bor]
+  have ha := trunc_lt w (a.eval ρ)
+  have hb := trunc_lt w (b.eval ρ)
+  rw [trunc_of_lt (x := _ - _ - trunc w (a.eval ρ)) (by omega),
+    trunc_of_lt (x := _ - _ - trunc w (b.eval ρ)) (by omega), nandW_cpl_cpl ha hb]
 
 theorem eval_bitXor (ρ : Env) (a b : Expr) (w : Nat) :
     (Tools.bitXor a b w).eval ρ = Spec.bxor w (a.eval ρ) (b.eval ρ) := by
-  sorry
+  simp only [Tools.bitXor, eval_binary, evalBin, Spec.bxor]
+  rw [trunc_of_lt (nandW_lt _ _ _), trunc_of_lt (nandW_lt _ _ _), trunc_of_lt (nandW_lt _ _ _),
+    nandW_xor (trunc_lt _ _) (trunc_lt _ _)]
 
-theorem eval_bool (ρ : Env) (e : Expr) (he : 1 ≤ e.width) :
-    (Tools.bool e).eval ρ = if e.eval ρ = 0 then 0 else 1 := by
-  sorry
+theorem eval_widthGadget (ρ : Env) (e : Expr) (w : Nat) :
+    (newWidthGadget e w).eval ρ = trunc w (e.eval ρ) := by
+  simp only [newWidthGadget, eval_binary, evalBin, eval_zero, trunc_zero, Nat.add_zero]
+  exact trunc_trunc w _
 
-theorem eval_not (ρ : Env) (e : Expr) (he : 1 ≤ e.width) :
-    (Tools.not e).eval ρ = if e.eval ρ = 0 then 1 else 0 := by
-  sorry
+theorem widthGadgetArg_newWidthGadget (e : Expr) (w : Nat) :
+    widthGadgetArg (newWidthGadget e w) = some e := by
+  simp [newWidthGadget, widthGadgetArg, Expr.zero]
 
 theorem eval_boolCond (ρ : Env) (c t f : Expr) (w : Nat) :
     (Tools.boolCond c t f w).eval ρ =
       if trunc w (c.eval ρ) ≠ 0 then trunc w (t.eval ρ) else trunc w (f.eval ρ) := by
-  sorry
+  simp only [Tools.boolCond, eval_less, eval_zero, trunc_zero, Nat.pos_iff_ne_zero]
+
+theorem eval_bool (ρ : Env) (e : Expr) (he : 1 ≤ e.width) :
+    (Tools.bool e).eval ρ = if e.eval ρ = 0 then 0 else 1 := by
+  simp only [Tools.bool, eval_widthGadget, eval_less, eval_zero, eval_one, trunc_zero,
+    trunc_one he, trunc_eval_width]
+  by_cases h : e.eval ρ = 0
+  · simp [h]
+  · have : ¬ e.eval ρ < 1 := by omega
+    simp [h, this, trunc_one]
+
+theorem eval_not (ρ : Env) (e : Expr) (he : 1 ≤ e.width) :
+    (Tools.not e).eval ρ = if e.eval ρ = 0 then 1 else 0 := by
+  simp only [Tools.not, eval_widthGadget, eval_less, eval_zero, eval_one, trunc_zero,
+    trunc_one he, trunc_eval_width]
+  by_cases h : e.eval ρ = 0
+  · simp [h, trunc_one]
+  · have : ¬ e.eval ρ < 1 := by omega
+    simp [h, this]
+
+theorem eval_negate (ρ : Env) (e : Expr) (w : Nat) :
+    (Tools.negate e w).eval ρ = Spec.neg w (e.eval ρ) := by
+  have hM := M_pos w
+  have hx := trunc_lt w (e.eval ρ)
+  simp only [Tools.negate, eval_binary, evalBin, eval_bitNot, Spec.bnot, Spec.M, eval_one]
+  rcases Nat.eq_zero_or_pos w with h0 | h0
+  · subst h0
+    exact eq_of_lt_of_M_one (Nat.mod_lt _ hM) (ofInt_lt _ _) (by simp)
+  · rw [trunc_one h0, trunc_of_lt (x := _ - _ - _) (by omega), neg_eq,
+      mod_cases (by omega)]
+    split <;> split <;> omega
+
+theorem eval_sub (ρ : Env) (a b : Expr) (w : Nat) :
+    (Tools.sub a b w).eval ρ = Spec.sub w (trunc w (a.eval ρ)) (trunc w (b.eval ρ)) := by
+  have hM := M_pos w
+  have ha := trunc_lt w (a.eval ρ)
+  have hb := trunc_lt w (b.eval ρ)
+  simp only [Tools.sub, eval_binary, evalBin, eval_negate]
+  rw [sub_eq ha hb, neg_eq, trunc_of_lt (x := ite _ _ _) (by split <;> omega),
+    mod_cases (by split <;> omega)]
+  split <;> split <;> split <;> omega
 
 theorem eval_eq (ρ : Env) (a b t f : Expr) (w : Nat) (hw : 1 ≤ w) :
     (Tools.eq a b t f w).eval ρ =
       if trunc w (a.eval ρ) = trunc w (b.eval ρ) then trunc w (t.eval ρ) else trunc w (f.eval ρ) := by
-  sorry
+  have ha := trunc_lt w (a.eval ρ)
+  have hb := trunc_lt w (b.eval ρ)
+  simp only [Tools.eq, eval_less, eval_sub, eval_one, trunc_one hw]
+  rw [sub_eq ha hb, trunc_of_lt (x := ite _ _ _) (by split <;> omega)]
+  have : (if trunc w (b.eval ρ) ≤ trunc w (a.eval ρ) then trunc w (a.eval ρ) - trunc w (b.eval ρ)
+      else trunc w (a.eval ρ) + 2 ^ (8 * w) - trunc w (b.eval ρ)) < 1
+      ↔ trunc w (a.eval ρ) = trunc w (b.eval ρ) := by
+    split <;> omega
+  simp only [this]
+
+theorem eval_leu (ρ : Env) (a b t f : Expr) (w : Nat) (hw : 1 ≤ w) :
+    (Tools.leu a b t f w).eval ρ =
+      if trunc w (a.eval ρ) ≤ trunc w (b.eval ρ) then trunc w (t.eval ρ) else trunc w (f.eval ρ) := by
+  simp only [Tools.leu, eval_less, eval_eq _ _ _ _ _ _ hw]
+  split
+  · next h => rw [if_pos (Nat.le_of_lt h)]
+  · next h =>
+    split
+    · next h' => rw [if_pos (Nat.le_of_eq h'), trunc_trunc]
+    · next h' => rw [if_neg (by omega), trunc_trunc]
+
+theorem eval_mod (ρ : Env) (a b : Expr) (w : Nat) :
+    (Tools.mod a b w).eval ρ = Spec.umod w (a.eval ρ) (b.eval ρ) := by
+  have hM := M_pos w
+  have ha := trunc_lt w (a.eval ρ)
+  have hb := trunc_lt w (b.eval ρ)
+  simp only [Tools.mod, eval_sub, eval_binary, evalBin, Spec.umod]
+  by_cases h0 : trunc w (b.eval ρ) = 0
+  · simp only [h0, if_true, Nat.mul_zero, Nat.zero_mod, trunc_zero]
+    rw [sub_eq ha hM]; simp
+  · simp only [h0, if_false]
+    have hdiv : trunc w (a.eval ρ) / trunc w (b.eval ρ) * trunc w (b.eval ρ) ≤ trunc w (a.eval ρ) :=
+      Nat.div_mul_le_self _ _
+    have hdm := Nat.div_add_mod (trunc w (a.eval ρ)) (trunc w (b.eval ρ))
+    have hle : trunc w (a.eval ρ) / trunc w (b.eval ρ) ≤ trunc w (a.eval ρ) := Nat.div_le_self _ _
+    rw [trunc_of_lt (x := _ / _) (by omega), Nat.mod_eq_of_lt (by omega),
+      trunc_of_lt (x := _ * _) (by omega), sub_eq ha (by omega), if_pos hdiv]
+    rw [Nat.mul_comm] at hdm
+    omega
+
+theorem width_signBitMask (w : Nat) : (Tools.signBitMask w).width = w := by
+  simp only [Tools.signBitMask]
+  split
+  · exact width_constUint _ _
+  · rfl
+
+theorem H_lt_M {w : Nat} (hw : 1 ≤ w) : 2 ^ (8 * w - 1) < 2 ^ (8 * w) :=
+  Nat.pow_lt_pow_right (by decide) (by omega)
+
+theorem eval_signBitMask (ρ : Env) {w : Nat} (hw : 1 ≤ w) (hw' : w ≤ 255) :
+    (Tools.signBitMask w).eval ρ = 2 ^ (8 * w - 1) := by
+  have hHM := H_lt_M hw
+  simp only [Tools.signBitMask]
+  split
+  · rw [eval_constUint, Nat.mod_eq_of_lt hHM]
+  · have h1 : (8 * w - 1) % 2 ^ (8 * 2) = 8 * w - 1 := Nat.mod_eq_of_lt (by simp; omega)
+    have h2 : 8 * w - 1 < 2 ^ (8 * w) :=
+      Nat.lt_of_le_of_lt (Nat.sub_le _ _) Nat.lt_two_pow_self
+    simp only [eval_binary, eval_one, eval_constUint, h1, trunc_one hw, trunc_of_lt h2, evalBin]
+    rw [if_neg (by omega), Nat.one_mul, Nat.mod_eq_of_lt hHM]
+
+theorem eval_intNegative (ρ : Env) (e : Expr) (w : Nat) (hw : 1 ≤ w) (hw' : w ≤ 255) :
+    (Tools.intNegative e w).eval ρ =
+      if toInt w (trunc w (e.eval ρ)) < 0 then 2 ^ (8 * w - 1) else 0 := by
+  have hx := trunc_lt w (e.eval ρ)
+  have hMH := M_eq_two_H hw
+  simp only [Tools.intNegative, eval_bitAnd, Spec.band, eval_signBitMask ρ hw hw',
+    trunc_of_lt (H_lt_M hw)]
+  rw [and_H (by omega)]
+  simp only [toInt_neg_iff hx]
+  split <;> split <;> omega
+
+theorem eval_abs (ρ : Env) (e : Expr) (w : Nat) (hw : 1 ≤ w) (hw' : w ≤ 255) :
+    (Tools.abs e w).eval ρ = Spec.abs w (e.eval ρ) := by
+  have hx := trunc_lt w (e.eval ρ)
+  have hMH := M_eq_two_H hw
+  simp only [Tools.abs, Tools.absMask, width_signBitMask, eval_less, eval_signBitMask ρ hw hw',
+    trunc_of_lt (H_lt_M hw), eval_negate]
+  rw [abs_eq hw, neg_eq]
+  split
+  · rfl
+  · rw [trunc_of_lt (by split <;> omega)]
+    split <;> omega
+
+theorem eval_maskBits (ρ : Env) (e : Expr) (cnt w : Nat) (hw : w ≤ 255) (hc : cnt ≤ 65535)
+    (hok : Tools.bitMaskOk cnt w = true) (h1 : w = 1 → cnt < 256) :
+    (Tools.maskBits e cnt w).eval ρ = Spec.mask w (e.eval ρ) cnt := by
+  have hM := M_pos w
+  have hx := trunc_lt w (e.eval ρ)
+  simp only [Tools.maskBits, eval_bitAnd, Spec.band, Spec.mask]
+  rcases Nat.eq_zero_or_pos w with h0 | h0
+  · subst h0
+    have : trunc 0 (e.eval ρ) = 0 := by simp [trunc, Nat.mod_one]
+    simp [this]
+  · simp only [Tools.bitMask]
+    split
+    · next hle =>
+      have hlt : 2 ^ cnt - 1 < 2 ^ (8 * w) := by
+        simp only [Tools.bitMaskOk, Bool.or_eq_true, decide_eq_true_eq] at hok
+        omega
+      rw [eval_constUint, Nat.mod_eq_of_lt hlt, trunc_of_lt hlt, Nat.and_two_pow_sub_one_eq_mod]
+    · next hgt =>
+      have hc1 : cnt % 2 ^ (8 * 2) = cnt := Nat.mod_eq_of_lt (by simp; omega)
+      have hc2 : cnt < 2 ^ (8 * w) := by
+        by_cases hw1 : w = 1
+        · have := h1 hw1; subst hw1; simpa using this
+        · have : 2 ^ 16 ≤ 2 ^ (8 * w) := Nat.pow_le_pow_right (by decide) (by omega)
+          have : (2:Nat) ^ 16 = 65536 := by decide
+          omega
+      simp only [eval_sub, eval_binary, eval_one, eval_constUint, hc1, trunc_one h0,
+        trunc_of_lt hc2, evalBin]
+      by_cases hge : cnt ≥ 8 * w
+      · rw [if_pos hge, trunc_zero, sub_eq hM (by omega), if_neg (by omega)]
+        have h2 : 0 + 2 ^ (8 * w) - 1 = 2 ^ (8 * w) - 1 := by omega
+        have h3 : 2 ^ (8 * w) ≤ 2 ^ cnt := Nat.pow_le_pow_right (by decide) hge
+        rw [h2, trunc_of_lt (x := 2 ^ (8 * w) - 1) (by omega), Nat.and_two_pow_sub_one_eq_mod,
+          Nat.mod_eq_of_lt hx,
+          Nat.mod_eq_of_lt (by omega)]
+      · rw [if_neg hge, Nat.one_mul]
+        have h3 : 2 ^ cnt < 2 ^ (8 * w) := Nat.pow_lt_pow_right (by decide) (by omega)
+        have h4 : 0 < 2 ^ cnt := Nat.two_pow_pos _
+        rw [Nat.mod_eq_of_lt h3, trunc_of_lt h3, sub_eq h3 (by omega), if_pos (by omega),
+          trunc_of_lt (x := 2 ^ cnt - 1) (by omega), Nat.and_two_pow_sub_one_eq_mod]
+
+theorem eval_absMask_sign (ρ : Env) (e : Expr) {w : Nat} (hw : 1 ≤ w) (hw' : w ≤ 255) :
+    (Tools.absMask e (Tools.signBitMask w)).eval ρ = Spec.abs w (e.eval ρ) :=
+  eval_abs ρ e w hw hw'
 
 theorem eval_lts (ρ : Env) (a b t f : Expr) (w : Nat) (hw : 1 ≤ w) (hw' : w ≤ 255) :
     (Tools.lts a b t f w).eval ρ =
       if toInt w (trunc w (a.eval ρ)) < toInt w (trunc w (b.eval ρ))
       then trunc w (t.eval ρ) else trunc w (f.eval ρ) := by
-  sorry
-
-theorem eval_leu (ρ : Env) (a b t f : Expr) (w : Nat) (hw : 1 ≤ w) :
-    (Tools.leu a b t f w).eval ρ =
-      if trunc w (a.eval ρ) ≤ trunc w (b.eval ρ) then trunc w (t.eval ρ) else trunc w (f.eval ρ) := by
-  sorry
+  have hx := trunc_lt w (a.eval ρ)
+  have hy := trunc_lt w (b.eval ρ)
+  have hMH := M_eq_two_H hw
+  have hH := H_pos w
+  have hHt := trunc_of_lt (H_lt_M hw)
+  simp only [Tools.lts, eval_less, eval_zero, trunc_zero, eval_bitAnd, eval_bitXor, Spec.band,
+    Spec.bxor, eval_signBitMask ρ hw hw', hHt, eval_absMask_sign ρ _ hw hw', abs_eq hw]
+  rw [and_H (x := trunc w (a.eval ρ)) (by omega), and_H (x := trunc w (b.eval ρ)) (by omega)]
+  rw [toInt_eq, toInt_eq]
+  generalize trunc w (a.eval ρ) = x at *
+  generalize trunc w (b.eval ρ) = y at *
+  by_cases h1 : x < 2 ^ (8 * w - 1) <;> by_cases h2 : y < 2 ^ (8 * w - 1) <;>
+    simp only [h1, h2, if_true, if_false, trunc_zero, hHt, Nat.xor_self, Nat.zero_xor, Nat.xor_zero,
+      Nat.lt_irrefl, hH, trunc_trunc]
+  · rw [trunc_ite, trunc_of_lt hx, trunc_of_lt hy]
+    exact ite_congr_prop (by omega) _ _
+  · rw [if_neg (by omega)]
+  · rw [trunc_ite, if_neg (by omega), if_pos (by omega)]
+  · rw [trunc_ite, trunc_of_lt (x := 2 ^ (8 * w) - y) (by omega),
+      trunc_of_lt (x := 2 ^ (8 * w) - x) (by omega)]
+    exact ite_congr_prop (by omega) _ _
 
 theorem eval_les (ρ : Env) (a b t f : Expr) (w : Nat) (hw : 1 ≤ w) (hw' : w ≤ 255) :
     (Tools.les a b t f w).eval ρ =
       if toInt w (trunc w (a.eval ρ)) ≤ toInt w (trunc w (b.eval ρ))
       then trunc w (t.eval ρ) else trunc w (f.eval ρ) := by
-  sorry
+  have hx := trunc_lt w (a.eval ρ)
+  have hy := trunc_lt w (b.eval ρ)
+  simp only [Tools.les, eval_lts _ _ _ _ _ _ hw hw', eval_eq _ _ _ _ _ _ hw]
+  split
+  · next h => rw [if_pos (Int.le_of_lt h)]
+  · next h =>
+    split
+    · next h' => rw [if_pos (by rw [h']; exact Int.le_refl _), trunc_trunc]
+    · next h' =>
+      have : toInt w (trunc w (a.eval ρ)) ≠ toInt w (trunc w (b.eval ρ)) :=
+        fun hh => h' (toInt_inj hw hx hy hh)
+      rw [if_neg (by omega), trunc_trunc]
 
-theorem eval_maskBits (ρ : Env) (e : Expr) (cnt w : Nat) (hw : w ≤ 255) (hc : cnt ≤ 65535)
-    (hok : Tools.bitMaskOk cnt w = true) (h1 : w = 1 → cnt < 256) :
-    (Tools.maskBits e cnt w).eval ρ = Spec.mask w (e.eval ρ) cnt := by
-  sorry
+theorem eval_signExtend (ρ : Env) (e sb : Expr) (w : Nat)
+    (hbit : trunc w (sb.eval ρ) < 8 * w) :
+    (Tools.signExtend e sb w).eval ρ = Spec.sext w (trunc w (e.eval ρ)) (trunc w (sb.eval ρ)) := by
+  have hw : 1 ≤ w := by omega
+  have hM := M_pos w
+  have hx := trunc_lt w (e.eval ρ)
+  generalize hs : trunc w (sb.eval ρ) = s at *
+  have hS : 2 ^ s < 2 ^ (8 * w) := Nat.pow_lt_pow_right (by decide) hbit
+  have hSpos := Nat.two_pow_pos s
+  have hmask : evalBin .lsh w (trunc w 1) s = 2 ^ s := by
+    simp only [evalBin, trunc_one hw]
+    rw [if_neg (by omega), Nat.one_mul, Nat.mod_eq_of_lt hS]
+  have hvm : Spec.sub w (trunc w (2 ^ s)) (trunc w 1) = 2 ^ s - 1 := by
+    rw [trunc_one hw, trunc_of_lt hS, sub_eq hS (by omega), if_pos (by omega)]
+  simp only [Tools.signExtend, eval_boolCond, eval_bitAnd, eval_bitOr, eval_bitNot, eval_sub,
+    eval_binary, eval_one, hs, hmask, hvm, Spec.band, Spec.bor, Spec.bnot, Spec.M, Spec.sext]
+  generalize trunc w (e.eval ρ) = x at *
+  rw [trunc_of_lt hS, trunc_of_lt (x := 2 ^ s - 1) (by omega),
+    trunc_of_lt (x := 2 ^ (8 * w) - 1 - (2 ^ s - 1)) (by omega), and_two_pow,
+    Nat.and_two_pow_sub_one_eq_mod, or_high_mask hx (Nat.le_of_lt hbit)]
+  have hlo : x % 2 ^ s < 2 ^ s := Nat.mod_lt _ hSpos
+  cases hb : x.testBit s
+  · simp only [if_false, Bool.false_eq_true, trunc_zero, ne_eq, not_true]
+    exact trunc_of_lt (by omega)
+  · simp only [if_true, trunc_of_lt hS]
+    rw [if_pos (by omega)]
+    rfl
 
-theorem eval_intNegative (ρ : Env) (e : Expr) (w : Nat) (hw : 1 ≤ w) (hw' : w ≤ 255) :
-    (Tools.intNegative e w).eval ρ =
-      if toInt w (trunc w (e.eval ρ)) < 0 then 2 ^ (8 * w - 1) else 0 := by
-  sorry
+theorem eval_rshA (ρ : Env) (e s : Expr) (w : Nat) (hw : 1 ≤ w) (hw' : w ≤ 255) :
+    (Tools.rshA e s w).eval ρ = Spec.rsha w (e.eval ρ) (trunc w (s.eval ρ)) := by
+  have hM := M_pos w
+  have hx := trunc_lt w (e.eval ρ)
+  have hMH := M_eq_two_H hw
+  have hH := H_pos w
+  have hones : trunc w (2 ^ (8 * w) - 1) = 2 ^ (8 * w) - 1 := trunc_of_lt (by omega)
+  simp only [Tools.rshA, eval_less, eval_bitOr, eval_sub, eval_binary, eval_ones, Spec.ones, Spec.M,
+    eval_signBitMask ρ hw hw', trunc_of_lt (H_lt_M hw), Spec.bor, Spec.rsha, hones, evalBin]
+  generalize trunc w (e.eval ρ) = x at *
+  generalize trunc w (s.eval ρ) = sh at *
+  rw [toInt_eq]
+  by_cases h1 : x < 2 ^ (8 * w - 1)
+  · simp only [h1, if_true]
+    by_cases h2 : sh ≥ 8 * w
+    · simp only [h2, if_true, trunc_zero]
+      rw [if_neg (by omega)]
+      exact (ofInt_natCast w 0).symm
+    · simp only [h2, if_false]
+      rw [← Int.natCast_ediv, ofInt_natCast]
+  · simp only [h1, if_false]
+    by_cases h2 : sh ≥ 8 * w
+    · simp only [h2, if_true, trunc_zero, Nat.zero_or]
+      rw [sub_eq (by omega) hM, if_pos (Nat.zero_le _), if_pos (by omega),
+        ofInt_of_neg (by omega) (by omega), Nat.sub_zero, hones, hones]
+      omega
+    · simp only [h2, if_false]
+      have hPpos := Nat.two_pow_pos sh
+      have hQpos := Nat.two_pow_pos (8 * w - sh)
+      have hMQP : 2 ^ (8 * w) = 2 ^ (8 * w - sh) * 2 ^ sh := by
+        rw [← Nat.pow_add]; congr 1; omega
+      generalize hP : 2 ^ sh = P at *
+      generalize hQ : 2 ^ (8 * w - sh) = Q at *
+      have hr : x / P < Q := by
+        rw [Nat.div_lt_iff_lt_mul hPpos]; omega
+      have hsm : (2 ^ (8 * w) - 1) / P = Q - 1 := by rw [hMQP]; exact pred_div hQpos hPpos
+      have hQM : Q ≤ 2 ^ (8 * w) := by
+        rw [hMQP]; exact Nat.le_mul_of_pos_right _ hPpos
+      have hadd : 2 ^ (8 * w) - 1 - (Q - 1) = Q * (P - 1) := by
+        rw [Nat.mul_sub, Nat.mul_one, ← hMQP]; omega
+      rw [hsm, trunc_of_lt (x := x / P) (by omega), trunc_of_lt (x := Q - 1) (by omega),
+        sub_eq (by omega) (by omega), if_pos (by omega), trunc_of_lt (x := _ - _ - _) (by omega),
+        hadd, Nat.or_comm, ← hQ, ← Nat.two_pow_add_eq_or_of_lt (by rw [hQ]; exact hr), hQ, ← hadd]
+      have hdiv : ((x : Int) - ((2 ^ (8 * w) : Nat) : Int)) / ((P : Nat) : Int)
+          = ((x / P : Nat) : Int) - (Q : Int) := by
+        have : (x : Int) - ((2 ^ (8 * w) : Nat) : Int) = (x : Int) + (-(Q : Int)) * (P : Int) := by
+          rw [hMQP]; push_cast; rw [Int.neg_mul]; omega
+        rw [this, Int.add_mul_ediv_right _ _ (by omega), Int.natCast_ediv]; omega
+      rw [hdiv]
+      have hr0 : (0 : Int) ≤ ((x / P : Nat) : Int) := Int.natCast_nonneg _
+      rw [ofInt_of_neg (by omega) (by omega)]
+      rw [trunc_of_lt (by omega)]
+      omega
 
-theorem eval_widthGadget (ρ : Env) (e : Expr) (w : Nat) :
-    (newWidthGadget e w).eval ρ = trunc w (e.eval ρ) := by
-  sorry
+/-- sign extension of a whole `e.width`-byte value to `W` bytes -/
+theorem eval_signExtend_const (ρ : Env) (e : Expr) (W : Nat) (h1 : 1 ≤ e.width) (h2 : e.width ≤ W)
+    (hW : W ≤ 254) :
+    (Tools.signExtend e (Tools.constUint (8 * e.width - 1) 2) W).eval ρ
+      = Spec.ofInt W (toInt e.width (e.eval ρ)) := by
+  have hlt := eval_lt ρ e
+  generalize e.width = w1 at *
+  have hMM : 2 ^ (8 * w1) ≤ 2 ^ (8 * W) := Nat.pow_le_pow_right (by decide) (by omega)
+  have hMH := M_eq_two_H h1
+  have hH := H_pos w1
+  have hb1 : (8 * w1 - 1) % 2 ^ (8 * 2) = 8 * w1 - 1 := Nat.mod_eq_of_lt (by simp; omega)
+  have hb2 : 8 * w1 - 1 < 2 ^ (8 * W) :=
+    Nat.lt_of_le_of_lt (by omega : 8 * w1 - 1 ≤ 8 * W) Nat.lt_two_pow_self
+  have hsb : trunc W ((Tools.constUint (8 * w1 - 1) 2).eval ρ) = 8 * w1 - 1 := by
+    rw [eval_constUint, hb1, trunc_of_lt hb2]
+  rw [eval_signExtend ρ e _ W (by rw [hsb]; omega), hsb, trunc_of_lt (by omega)]
+  generalize e.eval ρ = x at *
+  simp only [Spec.sext, Spec.M]
+  rw [testBit_top (by omega), toInt_eq]
+  by_cases hx : x < 2 ^ (8 * w1 - 1)
+  · simp only [hx, Nat.not_le.mpr hx, decide_false, if_true, Bool.false_eq_true, if_false]
+    rw [Nat.mod_eq_of_lt hx, ofInt_natCast, trunc_of_lt (by omega)]
+  · simp only [hx, Nat.le_of_not_lt hx, decide_true, if_true, if_false]
+    rw [mod_cases (a := x) (M := 2 ^ (8 * w1 - 1)) (by omega), if_neg hx,
+      Nat.mod_eq_of_lt (by omega),
+      ofInt_of_neg (by omega) (by omega)]
+    omega
 
-theorem widthGadgetArg_newWidthGadget (e : Expr) (w : Nat) :
-    widthGadgetArg (newWidthGadget e w) = some e := by
-  sorry
+theorem eval_signedMul (ρ : Env) (a b : Expr) (w : Nat) (hw : w ≤ 127)
+    (ha : 1 ≤ a.width ∧ a.width ≤ 2 * w) (hb : 1 ≤ b.width ∧ b.width ≤ 2 * w) :
+    (Tools.signedMul a b w).eval ρ = Spec.smul w a.width b.width (a.eval ρ) (b.eval ρ) := by
+  simp only [Tools.signedMul, eval_binary, evalBin,
+    eval_signExtend_const ρ a (2 * w) ha.1 ha.2 (by omega),
+    eval_signExtend_const ρ b (2 * w) hb.1 hb.2 (by omega), Spec.smul, trunc_eval_width]
+  rw [trunc_of_lt (ofInt_lt _ _), trunc_of_lt (ofInt_lt _ _), ofInt_mul]
+
+theorem eval_negativeSignJoin (ρ : Env) (a b : Expr) (w : Nat) (hw : 1 ≤ w) (hw' : w ≤ 255)
+    (ha : a.width = w) (hb : b.width = w) :
+    (Tools.negativeSignJoin a b).eval ρ =
+      if (decide (toInt w (trunc w (a.eval ρ)) < 0) != decide (toInt w (trunc w (b.eval ρ)) < 0))
+      then 1 else 0 := by
+  have hH := H_pos w
+  have hwi : ∀ e : Expr, 1 ≤ (Tools.intNegative e w).width := fun e => hw
+  simp only [Tools.negativeSignJoin, ha, hb, eval_bitXor, Spec.bxor, eval_bool _ _ (hwi _),
+    eval_intNegative _ _ _ hw hw']
+  by_cases h1 : toInt w (trunc w (a.eval ρ)) < 0 <;> by_cases h2 : toInt w (trunc w (b.eval ρ)) < 0
+    <;> simp [h1, h2, trunc_one (Nat.le_refl 1)]
+
+theorem eval_signedOp (ρ : Env) (a b : Expr) (w : Nat) (f : Expr → Expr → Nat → Expr)
+    (hw : 1 ≤ w) (hw' : w ≤ 255) (ha : a.width = w) (hb : b.width = w) :
+    (Tools.signedOp a b w f).eval ρ =
+      if (decide (toInt w (trunc w (a.eval ρ)) < 0) != decide (toInt w (trunc w (b.eval ρ)) < 0))
+      then Spec.neg w ((f (Tools.abs a w) (Tools.abs b w) w).eval ρ)
+      else trunc w ((f (Tools.abs a w) (Tools.abs b w) w).eval ρ) := by
+  simp only [Tools.signedOp, eval_boolCond, eval_negativeSignJoin ρ a b w hw hw' ha hb, ha, hb,
+    eval_negate]
+  split
+  · simp only [trunc_one hw]; exact trunc_of_lt (ofInt_lt _ _)
+  · simp only [trunc_zero]; simp
+
+theorem eval_signedDiv (ρ : Env) (a b : Expr) (w : Nat) (hw : 1 ≤ w) (hw' : w ≤ 255)
+    (ha : a.width = w) (hb : b.width = w) :
+    (Tools.signedDiv a b w).eval ρ = Spec.sdiv w (a.eval ρ) (b.eval ρ) := by
+  have hM := M_pos w
+  have hx := trunc_lt w (a.eval ρ)
+  have hy := trunc_lt w (b.eval ρ)
+  simp only [Tools.signedDiv, eval_boolCond, eval_signedOp ρ a b w _ hw hw' ha hb, eval_ones,
+    eval_binary, evalBin, eval_abs _ _ _ hw hw', abs_eq_natAbs hw, Spec.sdiv, Spec.ones, Spec.M]
+  generalize trunc w (a.eval ρ) = x at *
+  generalize trunc w (b.eval ρ) = y at *
+  have hA := natAbs_toInt_lt hw hx
+  have hB := natAbs_toInt_lt hw hy
+  rw [trunc_of_lt hA, trunc_of_lt hB]
+  by_cases hy0 : y = 0
+  · subst hy0
+    have : toInt w 0 = 0 := (toInt_eq_zero_iff hw hy).mpr rfl
+    simp only [this, if_true, ne_eq, not_true, if_false]
+    exact trunc_of_lt (by omega)
+  · have hb0 : toInt w y ≠ 0 := fun h => hy0 ((toInt_eq_zero_iff hw hy).mp h)
+    have hB0 : (toInt w y).natAbs ≠ 0 := by omega
+    simp only [hb0, hy0, hB0, if_false, ne_eq, not_false_eq_true, if_true]
+    have hU : (toInt w x).natAbs / (toInt w y).natAbs < 2 ^ (8 * w) :=
+      Nat.lt_of_le_of_lt (Nat.div_le_self _ _) hA
+    rw [tdiv_eq]
+    split
+    · rw [trunc_of_lt (x := Spec.neg w _) (ofInt_lt _ _)]; rfl
+    · rw [trunc_trunc, ofInt_natCast]
+
+theorem eval_signedMod (ρ : Env) (a b : Expr) (w : Nat) (hw : 1 ≤ w) (hw' : w ≤ 255)
+    (ha : a.width = w) (hb : b.width = w) :
+    (Tools.signedMod a b w).eval ρ = Spec.smod w (a.eval ρ) (b.eval ρ) := by
+  have hx := trunc_lt w (a.eval ρ)
+  have hy := trunc_lt w (b.eval ρ)
+  simp only [Tools.signedMod, eval_signedOp ρ a b w _ hw hw' ha hb, eval_mod,
+    eval_abs _ _ _ hw hw', abs_eq_natAbs hw, Spec.smod, Spec.umod]
+  generalize trunc w (a.eval ρ) = x at *
+  generalize trunc w (b.eval ρ) = y at *
+  have hA := natAbs_toInt_lt hw hx
+  have hB := natAbs_toInt_lt hw hy
+  rw [trunc_of_lt hA, trunc_of_lt hB]
+  have hm : ((if (toInt w y).natAbs = 0 then (toInt w x).natAbs
+        else (toInt w x).natAbs % (toInt w y).natAbs : Nat) : Int)
+      = if toInt w y = 0 then ((toInt w x).natAbs : Int)
+        else (((toInt w x).natAbs % (toInt w y).natAbs : Nat) : Int) := by
+    by_cases h : toInt w y = 0
+    · simp [h]
+    · have : (toInt w y).natAbs ≠ 0 := by omega
+      simp [h, this]
+  rw [← hm]
+  split
+  · rfl
+  · rw [ofInt_natCast]
 
 end Mltwist.Lemmas.Gadgets
